@@ -130,7 +130,7 @@ func drawInjections(r *fw.Rand, src []byte, k int) []string {
 		long := strings.Repeat(string(rune('a'+i)), 50+r.Intn(60))
 		out = append(out, fmt.Sprintf("%d|%s", off, fw.Pick(r, []string{"/*" + id + "*/", " /*" + id + "*/ ", "//" + id + "\n", " // " + id + "\n", "#" + id + "\n", "/*" + id + "\n" + id + "*/", "/*" + id + " " + long + "*/", " /* " + id + " " + long + " */ ",
 			// star-bordered block comments (continuation lines starting with '*' in the first column or after a blank)
-			"/*" + id + "\n* " + id + "\n*/", "/*" + id + "\n * " + id + "\n */", "/**\n** " + id + "\n**/", " /*" + id + "\n*" + id + "*/ "})))
+			"/*" + id + "\n\"" + id + "\" */", "/*" + id + "\n* " + id + "\n*/", "/*" + id + "\n * " + id + "\n */", "/**\n** " + id + "\n**/", " /*" + id + "\n*" + id + "*/ "})))
 	}
 	return out
 }
